@@ -1527,7 +1527,11 @@ def _regression_corpus(out):
         tmp = new_outcome()
         _replay_into(tmp, w)
         for f in tmp["failures"]:
-            add_failure(out, "spec", f"REGRESSION of {k['id']} ({k.get('commit')}): " + f["what"], f["input"], f["expected"], f["got"], sig="regression:" + f["sig"])
+            if f["sig"] in k.get("sigs", []) or f["sig"] == w.get("sig"):
+                add_failure(out, "spec", f"REGRESSION of {k['id']} ({k.get('commit')}): " + f["what"], f["input"], f["expected"], f["got"], sig="regression:" + f["sig"])
+            else:
+                # another clause fails on the witness string: an ordinary failure, reported under its own signature
+                add_failure(out, "spec", f["what"], f["input"], f["expected"], f["got"], sig=f["sig"])
 
 
 def spec_check(ctx, budget):
